@@ -30,6 +30,7 @@ type C09Case struct {
 	EditMode int            `json:"edit_mode"` // 0 none, 1 unsaved: extra transaction appended, 2 unsaved: last entry dropped
 	Extra    *m.Tx          `json:"extra,omitempty"`
 	EditFile *int           `json:"edit_file,omitempty"` // the open file that carries the unsaved edit; nil: the requesting file
+	LateOpen bool           `json:"late_open,omitempty"` // the other file is opened with the unsaved text (no change notification), after a first request from the requesting file
 }
 
 func (c *C09Case) editFile() int {
@@ -143,13 +144,23 @@ func c09Check(c *C09Case) (ds []ev.Discrepancy, stats map[string]int) {
 	if _, err := h.OpenAndWait(uris[c.From], disk[c.From].Text); err != nil {
 		return []ev.Discrepancy{ev.D("c09.harness", "%v", err)}, stats
 	}
+	lateOpen := c.LateOpen && ef != c.From && c.EditMode != 0
 	if ef != c.From {
-		if _, err := h.OpenAndWait(uris[ef], disk[ef].Text); err != nil {
+		text := disk[ef].Text
+		if lateOpen {
+			// the server has answered from this file's include tree before the other file is opened
+			// with a text that is not the one on disk (a restored unsaved buffer)
+			_ = lspx.Guard(func() {
+				_, _ = h.S.References(context.Background(), &protocol.ReferenceParams{TextDocumentPositionParams: tdpp(uris[c.From], refclient.Pos{}), Context: protocol.ReferenceContext{IncludeDeclaration: true}})
+			})
+			text = editR.Text
+		}
+		if _, err := h.OpenAndWait(uris[ef], text); err != nil {
 			return []ev.Discrepancy{ev.D("c09.harness", "%v", err)}, stats
 		}
 		defer func() { _ = h.Close(uris[ef]) }()
 	}
-	if c.EditMode != 0 {
+	if c.EditMode != 0 && !lateOpen {
 		_ = h.Change(uris[ef], 2, []refclient.Change{{Text: editR.Text}})
 		if err := h.Quiesce(); err != nil {
 			return []ev.Discrepancy{ev.D("c09.harness", "%v", err)}, stats
@@ -380,10 +391,11 @@ func TestC09(t *testing.T) {
 			}
 			ef := rapid.SampledFrom(ws.Reachable(scopeRoot)).Draw(t, "editfile")
 			c.EditFile = &ef
+			c.LateOpen = ef != c.From && rapid.Bool().Draw(t, "lateopen")
 		}
 		ds, st := c09Check(c)
 		nt := st["symbol_in_2_files"] > 0 || c.From != 0
-		cls := []string{fmt.Sprintf("root:%v", c.Root), fmt.Sprintf("from-root-file:%v", c.From == 0), fmt.Sprintf("edit:%d", c.EditMode), fmt.Sprintf("files:%d", len(ws.Files)), fmt.Sprintf("edit-in-other-file:%v", c.EditMode != 0 && c.editFile() != c.From)}
+		cls := []string{fmt.Sprintf("root:%v", c.Root), fmt.Sprintf("from-root-file:%v", c.From == 0), fmt.Sprintf("edit:%d", c.EditMode), fmt.Sprintf("files:%d", len(ws.Files)), fmt.Sprintf("edit-in-other-file:%v", c.EditMode != 0 && c.editFile() != c.From), fmt.Sprintf("other-file-opened-with-unsaved-text:%v", c.LateOpen)}
 		recC09.Case(nt, mustJSON(c), cls...)
 		for k, v := range st {
 			recC09.Count(k, int64(v))
